@@ -17,15 +17,23 @@ def addOperation : List String := ["lock", "prevheads", "append", "status", "hea
 /-- one cached head of `BaseStore.Load` (`Store.loadChecked`, `loadHead`, `missingFetch`, `goodFetch`): the
 log is fetched; an ended context or a head that did not come back ends the load with an error (F32);
 of the fetched entries only those of this log (F27) that the store does not hold yet (F36) and that
-the access controller and the signature check accept (F29) are kept; when a limit is set and what was left
-out made the fetch keep too little, it is made again, longer (`Refetch.loop`, F57); they are merged WITHOUT a trim,
+the access controller and the signature check accept (F29) and that sit at the address of their content (F46; the address is computed, not written: F64, F66) are kept; when a limit is set and what was left
+out made the fetch keep too little, it is made again, longer - by what was left out, and at least twice as long (`Refetch.loopR`, `nextLen`: F57, F63, F67); they are merged WITHOUT a trim,
 and the trim is asked for only once the listing is longer than the limit (F30) -/
-def loadJoin : List String := ["fetch", "ctxcheck", "headcheck", "ownlog", "held", "canappend", "verify", "enough", "again", "merge", "listing", "trim"]
+def loadJoin : List String := ["fetch", "ctxcheck", "headcheck", "ownlog", "held", "address", "addresserr", "addresscheck", "canappend", "verify", "enough", "again", "double", "merge", "listing", "trim"]
 
 /-- `events.handleSubscriber`, when its context ends (`BusClose`, `drain := true`): a goroutine keeps
 reading the bus subscription, THEN `Close` is called, and only after it has returned is the reader
 stopped — an emitter blocked on the full subscription holds the lock `Close` needs (F38) -/
 def subscriberClose : List String := ["drain", "close", "stopdrain"]
+
+/-- `replicator.processHash` (one fetched batch, `Repl` model + `goodFetch`): the fetch; the requested entry
+must have come back (a fetch that brought nothing has FAILED: F8); every entry is of this log (F5) and
+sits at the address of its content (F46) - the address is COMPUTED (`utils.EntryAddress`), nothing is
+written, so the check cannot fail because of the node or the context (F64: such a failure was taken for the
+verdict; then, F66: made an error, it let one unencodable block fail every Load); an entry without an
+encoding is a verdict like a wrong address -; only then is the batch buffered for `Join` -/
+def processHash : List String := ["fetch", "headcheck", "ownlog", "address", "addresserr", "addresscheck", "buffer"]
 
 /-- `accesscontroller.VerifyEntryAuthor`: the entry is signed with the key of the identity it names; an
 identity of another type is handed to its own provider, which answers for its signature scheme; only
@@ -77,7 +85,7 @@ fetched again, through every link — and, as in `Load`, only the entries of thi
 controller and the signature check accept are kept (F47); the
 largest clock is taken over the entries of THAT log (not over every record of the file), the maximum
 is raised, the log is joined, the view refreshed and the status brought up to date (C19). -/
-def loadSnapshot : List String := ["rebuild", "ownlog", "held", "canappend", "verify", "count", "max", "join", "index", "status"]
+def loadSnapshot : List String := ["rebuild", "ownlog", "held", "address", "addresscheck", "canappend", "verify", "count", "max", "join", "index", "status"]
 
 /-- `oneonone.Connect` (`Connect.connectLocked`): the look-up of the peer, the `Subscribe` and the insert
 happen under one hold of `muSubs` (the first `Unlock` in the text is the error path after `Subscribe`) -/
